@@ -19,6 +19,7 @@ use crate::{
     rec::{Ev, PlanReader, PlanWriter, Recorder},
 };
 
+#[derive(Clone)]
 pub struct RunCfg {
     pub backend: String,
     pub level: u32,
@@ -232,9 +233,23 @@ fn repeated_with<'c, C: CellType, X: Executor<'c, C>>(
     input: &[u8],
     n: usize,
 ) -> Vec<(Vec<Ev>, String)> {
-    match catch_unwind(AssertUnwindSafe(|| X::create(code, cfg.level))) {
-        Ok(Ok(exec)) => (0..n)
-            .map(|i| {
+    let cfgs: Vec<RunCfg> = (0..n).map(|_| cfg.clone()).collect();
+    sequence_with::<C, X>(code, &cfgs, input)
+}
+
+/// One executor, one call per configuration in `cfgs` (entry point and budget may differ from call to
+/// call), each on a fresh context.
+fn sequence_with<'c, C: CellType, X: Executor<'c, C>>(
+    code: &'c str,
+    cfgs: &[RunCfg],
+    input: &[u8],
+) -> Vec<(Vec<Ev>, String)> {
+    let level = cfgs.first().map(|c| c.level).unwrap_or(0);
+    match catch_unwind(AssertUnwindSafe(|| X::create(code, level))) {
+        Ok(Ok(exec)) => cfgs
+            .iter()
+            .enumerate()
+            .map(|(i, cfg)| {
                 PREFILL.store(if i == 0 { 0 } else { 7 * i + 1 }, std::sync::atomic::Ordering::SeqCst);
                 let r = exec_once::<C, X>(&exec, cfg, input, None);
                 PREFILL.store(0, std::sync::atomic::Ordering::SeqCst);
@@ -242,6 +257,27 @@ fn repeated_with<'c, C: CellType, X: Executor<'c, C>>(
             })
             .collect(),
         _ => vec![(vec![], "create-failed".to_string())],
+    }
+}
+
+/// Executes one executor through a sequence of different entry points; returns every (log, result).
+pub fn run_sequence(code: &str, w: u32, cfgs: &[RunCfg], input: &[u8]) -> Vec<(Vec<Ev>, String)> {
+    let backend = cfgs.first().map(|c| c.backend.clone()).unwrap_or_default();
+    macro_rules! go {
+        ($c:ty) => {
+            match backend.as_str() {
+                "inplace" => sequence_with::<$c, InplaceInterpreter<$c>>(code, cfgs, input),
+                "irint" => sequence_with::<$c, IrInterpreter<$c>>(code, cfgs, input),
+                "bcint" => sequence_with::<$c, BcInterpreter<$c>>(code, cfgs, input),
+                _ => sequence_with::<$c, BaseJitCompiler<$c>>(code, cfgs, input),
+            }
+        };
+    }
+    match w {
+        8 => go!(u8),
+        16 => go!(u16),
+        32 => go!(u32),
+        _ => go!(u64),
     }
 }
 
@@ -305,11 +341,14 @@ pub fn op_run(req: &Value) {
     if let Some(sc) = req.get("screen") {
         let ms = sc["maxSteps"].as_u64().unwrap_or(5000) as usize;
         let me = sc["maxEv"].as_u64().unwrap_or(200) as usize;
-        if !crate::refint::balanced(code.as_bytes()) {
+        // a case may carry its text without comment padding for the scheduling run (`specProg`): the padded
+        // text is what the back ends get, the native interpreter would only count the padding as steps
+        let screen_code = req["specProg"].as_str().unwrap_or(&code).to_string();
+        if !crate::refint::balanced(screen_code.as_bytes()) {
             println!("{}", json!({"id": id, "done": 1, "refclass": "unbalanced"}));
             return;
         }
-        let r = crate::refint::run(code.as_bytes(), &input, w, ms, me);
+        let r = crate::refint::run(screen_code.as_bytes(), &input, w, ms, me);
         if r.class != crate::refint::Class::Halts && sc["runAnyway"].as_u64().unwrap_or(0) == 0 {
             let class = if r.class == crate::refint::Class::Diverges { "diverges" } else { "unknown" };
             println!("{}", json!({"id": id, "done": 1, "refclass": class, "refsteps": r.steps,
